@@ -211,7 +211,8 @@ class Group:
     def register(self, snaps):
         names = {fn_norm(s["fn"]) for s in snaps}
         for s in snaps:
-            names |= {fn_norm(n) for n in s.get("ctx", {})}
+            for k in ("ctx", "ctx_before", "ctx_after"):
+                names |= {fn_norm(n) for n in (s.get(k) or {})}
         self.fn_index = {n: k for k, n in enumerate(sorted(names))}
 
     def _export(self, h, name, text):
@@ -247,7 +248,22 @@ class Group:
         self.cfgs[cid] = (top_h, ckey)
         return cid
 
+    def add_contexts(self, snap, before, after):
+        """before / after: {function name: text hash} of two whole contexts (e.g. around FunctionInlinerPass)"""
+        tb = [h for n, h in before.items() if fn_norm(n) == self.top]
+        ta = [h for n, h in after.items() if fn_norm(n) == self.top]
+        if not tb or not ta or tb[0] not in self.texts or ta[0] not in self.texts:
+            return False
+        cb = self._config(tb[0], self.texts[tb[0]], {n: h for n, h in before.items() if fn_norm(n) != self.top})
+        ca = self._config(ta[0], self.texts[ta[0]], {n: h for n, h in after.items() if fn_norm(n) != self.top})
+        if cb is None or ca is None:
+            return False
+        self.pairs.append((snap, cb, ca))
+        return True
+
     def add(self, snap):
+        if snap["fn"] == "<ctx>":
+            return self.add_contexts(snap, snap["ctx_before"], snap["ctx_after"])
         hb, ha = X.text_hash(snap["before"]), X.text_hash(snap["after"])
         ctx = dict(snap.get("ctx", {}))
         fn = fn_norm(snap["fn"])
@@ -632,6 +648,11 @@ def _select(ctx, progs, forced=()):
             if g.add(s):
                 cover[s["pass"]] = cover.get(s["pass"], 0) + 1
         g.rejected = len(pick) - len(g.pairs)
+        # context-level passes (FunctionInlinerPass): whole contexts before / after
+        for s in pr["snaps"]:
+            if s["fn"] == "<ctx>" and s["level"] == lvl:
+                if g.add(s):
+                    cover["ctx:" + s["pass"]] = cover.get("ctx:" + s["pass"], 0) + 1
         # internal functions: a seeded sample in quick, the unvalidated passes in thorough
         ints = [s for s in internal.get((name, lvl), []) if quick or s["pass"] not in VALIDATED]
         if quick:
@@ -827,3 +848,33 @@ def _tie(ctx, progs, g, stats, tag, which="final"):
                           detail, key=key)
         break
     return found
+
+
+def context_differential(before, after, inputs, storages=({},), top="runtime", rounds=4, tag="ctxdiff"):
+    """Differential harness for passes that change several functions (e.g. FunctionInlinerPass): `before` / `after` map
+    function names to Venom source texts (each text = one function, optionally followed by the data segment, as printed by
+    the compiler); `inputs` = [{"data": calldata hex, "value": int, "sender": "0x.."}].  Both contexts are run with
+    `crun` (coq/C14/VenomCall.v) started in `top`, and the observations are compared.
+    -> list of (input index, storage index, code, reasons) with code 0 = equal observation, 1 = not comparable (a run is stuck:
+    reasons), 2 = DIFFERENT."""
+    global ADDR_WORD
+    from vlib.evm import Chain
+    ADDR_WORD = int(Chain("cancun").set_code(None, b"\x00"), 16)
+    texts, hb, ha = {}, {}, {}
+    for src, dst in ((before, hb), (after, ha)):
+        for n, t in src.items():
+            h = X.text_hash(t)
+            texts[h] = t
+            dst[n] = h
+    g = Group("ctx", "ctx", list(inputs), list(storages), texts=texts, top=top)
+    snap = {"fn": "<ctx>", "pass": "context", "idx": 0, "arg": "", "before": "", "after": "", "ctx_before": hb, "ctx_after": ha,
+            "prog": "ctx", "level": "ctx"}
+    g.register([snap])
+    if not g.add(snap):
+        raise ValueError("contexts cannot be exported (parser rejected a function, or no function named %r)" % top)
+    try:
+        g.compile_defs(f"{os.getpid()}_{tag}")
+        res = run_group(g, rounds, f"{os.getpid()}_{tag}")
+    finally:
+        g.cleanup()
+    return [(i, j, code, why) for (p, i, j), (code, why) in sorted(res.items())]
